@@ -140,6 +140,7 @@ type pathState struct {
 	switches   int
 	preemptBound int
 	concLoss   []string
+	domains map[string]*domain // finite inputs constrained only by unary constraints
 }
 
 // Result of exploring one harness.
@@ -190,16 +191,12 @@ type explorer struct {
 	npaths  int64
 }
 
-func (ex *explorer) noteFunc(fn *ssa.Function) {
-	ex.funcsMu.Lock()
-	ex.funcs[fn] = true
-	ex.funcsMu.Unlock()
+func (i *interpreter) noteFunc(fn *ssa.Function) {
+	i.funcs[fn] = true
 }
 
-func (ex *explorer) noteNative(name string) {
-	ex.funcsMu.Lock()
-	ex.natives[name]++
-	ex.funcsMu.Unlock()
+func (i *interpreter) noteNative(name string) {
+	i.nativeCalls[name]++
 }
 
 func (ex *explorer) push(p []decision) {
@@ -345,7 +342,16 @@ func (ex *explorer) worker(w int) {
 		r.Inconclusive = append(r.Inconclusive, fmt.Sprintf("solver reported %d error lines", solver.stats.Errors))
 	}
 	r.Steps += i.steps
+	r.AssertsSymbolic += i.assertsSymbolic
 	ex.mu.Unlock()
+	ex.funcsMu.Lock()
+	for fn := range i.funcs {
+		ex.funcs[fn] = true
+	}
+	for n, c := range i.nativeCalls {
+		ex.natives[n] += c
+	}
+	ex.funcsMu.Unlock()
 }
 
 func newInterpreter(ex *explorer, solver *Solver) *interpreter {
@@ -357,6 +363,9 @@ func newInterpreter(ex *explorer, solver *Solver) *interpreter {
 		sizes:    ex.sizes,
 		extCache: map[*ssa.Function]externalFn{},
 		extMiss:  map[*ssa.Function]bool{},
+		envSizes: map[*ssa.Function]int{},
+		funcs:    map[*ssa.Function]bool{},
+		nativeCalls: map[string]int64{},
 		trace:    ex.cfg.Trace,
 	}
 	if rp := ex.prog.ImportedPackage("runtime"); rp != nil {
@@ -371,7 +380,7 @@ func newInterpreter(ex *explorer, solver *Solver) *interpreter {
 // runPath executes the harness once, following prefix and then exploring.
 func (i *interpreter) runPath(prefix []decision) {
 	ex := i.ex
-	p := &pathState{prefix: prefix, covers: map[string]int{}, asserts: map[string]int{}, tags: map[string]string{}}
+	p := &pathState{prefix: prefix, covers: map[string]int{}, asserts: map[string]int{}, tags: map[string]string{}, domains: map[string]*domain{}}
 	i.path = p
 	i.dead = false
 	i.threads = nil
@@ -380,18 +389,25 @@ func (i *interpreter) runPath(prefix []decision) {
 	i.panicOrigin = nil
 	startSteps := i.steps
 	i.solver.Reset()
-	// fresh globals
-	i.globals = make(map[*ssa.Global]*value)
-	i.initialised = map[*ssa.Package]bool{}
-	for _, pkg := range i.prog.AllPackages() {
-		if !i.cfg.initAllowed(pkg.Pkg.Path()) {
-			continue
-		}
-		for _, m := range pkg.Members {
-			if g, ok := m.(*ssa.Global); ok {
-				cell := zero(mustDeref(g.Type()))
-				i.globals[g] = &cell
+	// fresh globals for the olareg module (incl. harness and environment models);
+	// library packages (stdlib, go-digest) are initialised once per worker and kept:
+	// nothing in olareg or the harnesses mutates their package-level state.
+	if i.globals == nil {
+		i.globals = make(map[*ssa.Global]*value)
+		i.initialised = map[*ssa.Package]bool{}
+		for _, pkg := range i.prog.AllPackages() {
+			if i.cfg.initAllowed(pkg.Pkg.Path()) {
+				i.initPkgs = append(i.initPkgs, pkg)
+				if !perPathPackage(pkg.Pkg.Path()) {
+					i.allocGlobals(pkg)
+				}
 			}
+		}
+	}
+	for _, pkg := range i.initPkgs {
+		if perPathPackage(pkg.Pkg.Path()) {
+			i.allocGlobals(pkg)
+			delete(i.initialised, pkg)
 		}
 	}
 	main := &thread{id: 0, name: "main", resume: make(chan struct{}, 1)}
@@ -500,6 +516,19 @@ func (i *interpreter) runPath(prefix []decision) {
 	_ = startSteps
 }
 
+func perPathPackage(path string) bool {
+	return path == "github.com/olareg/olareg" || strings.HasPrefix(path, "github.com/olareg/olareg/")
+}
+
+func (i *interpreter) allocGlobals(pkg *ssa.Package) {
+	for _, m := range pkg.Members {
+		if g, ok := m.(*ssa.Global); ok {
+			cell := zero(mustDeref(g.Type()))
+			i.globals[g] = &cell
+		}
+	}
+}
+
 func (i *interpreter) originStack(p interface{}) string {
 	if i.panicOrigin != nil {
 		return " at" + i.panicOrigin.stack
@@ -566,6 +595,9 @@ func (i *interpreter) addPC(t *Term) {
 	if t.isTrue() {
 		return
 	}
+	if len(i.path.domains) > 0 {
+		i.path.narrow(t)
+	}
 	i.path.pc = append(i.path.pc, t)
 	i.solver.Assert(t)
 }
@@ -592,6 +624,81 @@ func (i *interpreter) check(extra ...*Term) solverResult {
 	return res
 }
 
+// domain is the exact set of feasible values of a finite input variable, maintained
+// as long as every path constraint mentioning the variable mentions no other variable.
+// Decisions over such a variable are evaluated by substitution instead of a query.
+type domain struct {
+	v    *Term
+	vals []uint64
+}
+
+// narrow updates the domains with a new path constraint.
+func (p *pathState) narrow(t *Term) {
+	name := singleVar(t)
+	if name != "" {
+		if d, ok := p.domains[name]; ok {
+			var keep []uint64
+			for _, val := range d.vals {
+				r := substTerm(t, map[string]*Term{name: constOf(d.v, val)})
+				if !r.isConst() {
+					delete(p.domains, name)
+					return
+				}
+				if r.Val == 1 {
+					keep = append(keep, val)
+				}
+			}
+			d.vals = keep
+			return
+		}
+		return
+	}
+	// several variables: all of them leave the fast path
+	dropVars(t, p.domains)
+}
+
+func dropVars(t *Term, m map[string]*domain) {
+	if t.Op == "var" {
+		delete(m, t.Name)
+		return
+	}
+	for _, a := range t.Args {
+		dropVars(a, m)
+	}
+}
+
+func constOf(v *Term, val uint64) *Term {
+	if v.S.K == sBool {
+		return mkBool(val == 1)
+	}
+	return mkBV(val, v.S.W)
+}
+
+// evalOverDomain evaluates boolean c for every value of its single finite variable.
+// ok=false if c is not of that form.
+func (p *pathState) evalOverDomain(c *Term) (canTrue, canFalse, ok bool) {
+	name := singleVar(c)
+	if name == "" {
+		return false, false, false
+	}
+	d, has := p.domains[name]
+	if !has {
+		return false, false, false
+	}
+	for _, val := range d.vals {
+		r := substTerm(c, map[string]*Term{name: constOf(d.v, val)})
+		if !r.isConst() {
+			return false, false, false
+		}
+		if r.Val == 1 {
+			canTrue = true
+		} else {
+			canFalse = true
+		}
+	}
+	return canTrue, canFalse, true
+}
+
 // forkBool decides a symbolic condition: follows the recorded decision, or asks the
 // solver which sides are feasible and schedules the other one.
 func (i *interpreter) forkBool(c *Term, where string) bool {
@@ -610,11 +717,30 @@ func (i *interpreter) forkBool(c *Term, where string) bool {
 	}
 	p.nontrivial = true
 	var take bool
-	rT := i.check(c)
+	var rT, rF solverResult
+	if ct, cf, ok := p.evalOverDomain(c); ok {
+		// finite input: decided by evaluation over its exact domain, no query
+		rT, rF = resUnsat, resUnsat
+		if ct {
+			rT = resSat
+		}
+		if cf {
+			rF = resSat
+		}
+		if !ct && !cf {
+			panic(pathAbort{kind: abortInfeasible})
+		}
+	} else {
+		rT = i.check(c)
+		if rT == resSat {
+			rF = i.check(tNot(c))
+		} else {
+			rF = resSat
+		}
+	}
 	if rT == resUnsat {
 		take = false
 	} else {
-		rF := i.check(tNot(c))
 		if rF == resUnsat {
 			take = true
 		} else {
@@ -675,6 +801,37 @@ func (i *interpreter) concretizeInt(v value, lo, hi int64, where string) int64 {
 		return d.V
 	}
 	p.nontrivial = true
+	if name := singleVar(t); name != "" {
+		if d, ok := p.domains[name]; ok && len(d.vals) > 0 {
+			// finite input with an exact domain: the feasible values of t follow by evaluation
+			seen := map[int64]bool{}
+			var vals []int64
+			okAll := true
+			for _, val := range d.vals {
+				r := substTerm(t, map[string]*Term{name: constOf(d.v, val)})
+				if !r.isConst() {
+					okAll = false
+					break
+				}
+				if !seen[r.sval()] {
+					seen[r.sval()] = true
+					vals = append(vals, r.sval())
+				}
+			}
+			if okAll {
+				sort.Slice(vals, func(a, b int) bool { return vals[a] < vals[b] })
+				for _, alt := range vals[1:] {
+					a := make([]decision, len(p.trace)+1)
+					copy(a, p.trace)
+					a[len(p.trace)] = decision{K: dConc, V: alt}
+					i.ex.push(a)
+				}
+				p.trace = append(p.trace, decision{K: dConc, V: vals[0]})
+				i.addPC(tEq(t, mkBV(uint64(vals[0]), t.S.W)))
+				return vals[0]
+			}
+		}
+	}
 	// enumerate feasible values
 	probe := i.newVar("conc", t.S)
 	i.addPC(tEq(probe, t))
@@ -832,9 +989,7 @@ func (i *interpreter) assert(c value, id string) {
 	}
 	t := termOf(c)
 	p.nontrivial = true
-	i.ex.mu.Lock()
-	i.ex.res.AssertsSymbolic++
-	i.ex.mu.Unlock()
+	i.assertsSymbolic++
 	neg := tNot(t)
 	res, model := i.solver.Check([]*Term{neg}, p.vars)
 	if res == resUnknown {
